@@ -33,6 +33,9 @@ CHECKS = {
  "C05": ("model_checking", "exhaustive scenario-tree enumeration with a virtual clock on the real in-process broker vs a reference session model; stateless schedule DFS (deviation-bounded) for simultaneous CONNECTs",
   "All sequences of connect variants (v3/v5, clean 0/1, expiry absent/5/MAX, take-over), subscribe, helper publish, DISCONNECT (with new expiry), abrupt close, TerminateSession and clock advances up to depth 4 full / 5 reduced alphabet (quick; +1 thorough) for session_expiry 10s and 2h; the reference decides Session Present, offline-message delivery and subscription survival, observed through a probe publish after every connect and clock step. Simultaneous CONNECTs with one client id (fresh id, stored offline session, clean or not; 2-3 connections) are explored under every schedule with <=1 (quick) / <=2 (thorough) demotions of the running thread: at most one attached socket, displaced socket closed before the displacer's CONNACK, exactly one socket answers PINGREQ, every CONNECT answered.",
   "Reconnects within 1s of the expiry instant are accepted either way. Schedule exploration is bounded by the number of deviations (a deviation pauses the running thread until all others are blocked). Trusted: vsched/memconn/virtual clock, refmqtt.", "DESIGN.md 8/C05"),
+ "C06": ("exploration", "exhaustive small-scope input enumeration (all byte strings to a length, mutation closure of a generated valid corpus, bounded string alphabets for the validators) against an independent reference codec",
+  "Every byte string of length <=3 and reduced-alphabet strings to length 4 (quick) / 5 (thorough) under v3.1, v3.1.1 and v5; allocation measured for every packet type with declared lengths up to 268435455 and 0..8 bytes supplied; a generated corpus of well-formed values of all 15 packet types x versions x every property is round-tripped gmqtt<->refmqtt in both directions (field equality, TotalBytes, Message.TotalBytes); every truncation, single-byte substitution, deletion and insertion of each corpus packet is decoded (no panic, bounded consumption, accepted => re-encodes to an equal packet); validators compared on all strings <=5 over a 12-byte alphabet.",
+  "Written by a sub-agent to the C06 design, triaged by hand. Behaviours MQTT forbids but the property statement does not mention (5+ byte remaining length, reserved ack flags, EOF inside the fixed header read as length 0, will-only properties in CONNECT) are counted in the evidence (beyond_statement:*) and not reported. Trusted: refmqtt reference codec.", "DESIGN.md 8/C06"),
 }
 NA_DEFAULT = "check not built yet in this session (planned design in DESIGN.md section 8)"
 
